@@ -379,6 +379,29 @@ Definition init_ok (c : cfg) (s0 : fs) : Prop :=
   /\ (forall j, s0 (POther j) = Old \/ s0 (POther j) = Absent).
 
 (* ------------------------------------------------------------------ *)
+(* restart                                                             *)
+(* ------------------------------------------------------------------ *)
+(* the file system as the *next* run finds it: what this run completed is
+   now an old complete file, whatever sits at a temporary name is a stale
+   leftover *)
+Definition age (t : list op) (s : fs) : fs :=
+  fun p =>
+    match p with
+    | PTmp _ => match s p with Absent => Absent | _ => Junk end
+    | _ => match view (total_of t p) (s p) with
+           | VAbsent => Absent
+           | VComplete => Old
+           | VPartial => Junk
+           end
+    end.
+
+(* the stale-file flags that describe a file system *)
+Definition flags_of (tk : task) (s : fs) : cfg :=
+  {| c_task := tk;
+     c_so := fun i => match s (POut i) with Absent => false | _ => true end;
+     c_st := fun i => match s (PTmp i) with Absent => false | _ => true end |}.
+
+(* ------------------------------------------------------------------ *)
 (* interface for the correspondence check (Gen/TaskTraces.v, harness)  *)
 (* ------------------------------------------------------------------ *)
 (* traces are run-length encoded *)
